@@ -54,6 +54,31 @@ theorem c05_run_to_suspension {s : State} (h : Reachable s) (c : Nat) (hc : s.cu
   subst ha
   exact hne (c05_no_preempt s c cs rev hc).1
 
+/-- **A nested `start()` returns to its caller**: `start()` called while a queue is installed resumes the child
+directly, without installing anything. When the chain it started returns (the executing coroutine parks, or
+finishes with nobody awaiting it), control goes back to the coroutine `p` that called `start()`: nothing is
+taken from the ready queue and nobody is resumed, so whatever `p` had made ready before is still queued when `p`
+continues. -/
+theorem c05_nested_return (s : State) (c p : Nat) (ps : List Nat) (hc : s.cur = some c)
+    (hp : s.calls = p :: ps) :
+    ((step s Act.park).cur = some p ∧ (step s Act.park).ready = s.ready ∧ (step s Act.park).deq = s.deq
+      ∧ (step s Act.park).runs = s.runs ∧ (step s Act.park).calls = ps)
+    ∧ (s.waiter c = none →
+      (step s Act.fin).cur = some p ∧ (step s Act.fin).ready = s.ready ∧ (step s Act.fin).deq = s.deq
+      ∧ (step s Act.fin).runs = s.runs ∧ (step s Act.fin).calls = ps) := by
+  constructor
+  · simp [step, hc, coStep, coPark, settle, hp]
+  · intro hw
+    simp [step, hc, coStep, coFin, hw, settle, hp]
+
+/-- the same for ordinary code that called `start()` inside an `install_queue_and_call` block: it gets control
+back with the queue untouched; the queue is flushed by the trailer of the block (`leave`), not by `start()` -/
+theorem c05_nested_return_main (s : State) (c : Nat) (hc : s.cur = some c) (hcl : s.calls = [])
+    (hb : s.base = some Base.callMain) :
+    (step s Act.park).cur = none ∧ (step s Act.park).ready = s.ready ∧ (step s Act.park).deq = s.deq
+    ∧ (step s Act.park).runs = s.runs ∧ (step s Act.park).active = s.active := by
+  simp [step, hc, coStep, coPark, settle, hcl, hb]
+
 /-- the same for ordinary code inside an installed queue (`install_queue_and_call` body) -/
 theorem c05_no_preempt_in_block (s : State) (cs : List Nat) (m : Mode) (rev : Bool) (hc : s.cur = none)
     (ha : s.active = true) :
@@ -386,5 +411,13 @@ example :
     ∧ (run init [Act.enter, Act.wake [3] Mode.discard false]).ready = [3]
     ∧ (run init [Act.enter, Act.wake [3] Mode.discard false, Act.leave]).cur = some 3
     ∧ (run init [Act.enter, Act.wake [3] Mode.discard false, Act.leave, Act.fin]).active = false := by decide
+
+/-- nested start: 0 queues 2, starts 1; 1 parks; 0 continues with 2 still queued -/
+example :
+    (run init [Act.start 0, Act.wake [2] Mode.discard false, Act.start 1]).calls = [0]
+    ∧ (run init [Act.start 0, Act.wake [2] Mode.discard false, Act.start 1, Act.park]).cur = some 0
+    ∧ (run init [Act.start 0, Act.wake [2] Mode.discard false, Act.start 1, Act.park]).ready = [2]
+    ∧ (run init [Act.enter, Act.wake [0] Mode.discard false, Act.start 1]).base = some Base.callMain
+    ∧ (run init [Act.enter, Act.wake [0] Mode.discard false, Act.start 1, Act.park]).ready = [0] := by decide
 
 end Cocls.Exec
